@@ -128,13 +128,21 @@ def main():
             res["demo_output"] = out1[-600:]
         # --- our checks
         res["checks"] = {}
+        # private copy of the Coq tree and build dir: C07/C20 regenerate coq/Gen/*.v from the tree under test
+        work = os.path.join(V, "build", "seedwork", "%s-%s" % (ID, m))
+        if checks:
+            shutil.rmtree(work, ignore_errors=True)
+            os.makedirs(work)
+            sh("cp -a %s %s" % (os.path.join(V, "coq"), os.path.join(work, "coq")))
         for cid in checks:
             t = time.time()
-            rc, out = sh("./check %s --tier quick" % cid, cwd=V, timeout=2400, env=dict(ENV, VERIF_REPO=wt, VERIF_EVID_DIR=os.path.join(V, "build", "seed-evidence"), VERIF_REPLAY_DIR=os.path.join(V, "build", "seed-replays")))
+            rc, out = sh("./check %s --tier quick" % cid, cwd=V, timeout=2400, env=dict(ENV, VERIF_REPO=wt, VERIF_EVID_DIR=os.path.join(V, "build", "seed-evidence"), VERIF_REPLAY_DIR=os.path.join(V, "build", "seed-replays"),
+                                   VERIF_COQ_DIR=os.path.join(work, "coq"), VERIF_BUILD_DIR=os.path.join(work, "build")))
             viol = [l for l in out.split("\n") if l.startswith("VIOLATION") or l.startswith("OK ") or l.startswith("KNOWN-FINDING")]
             keys = re.findall(r"violation \[([^\]]+)\]", out)
             res["checks"][cid] = dict(rc=rc, lines=viol[:5], keys=sorted(set(keys))[:10], wall=round(time.time() - t, 1),
                                       tail=out[-700:] if rc not in (0, 1) else "")
+    shutil.rmtree(os.path.join(V, "build", "seedwork", "%s-%s" % (ID, m)), ignore_errors=True)
     sh("git -C %s checkout -- . && git -C %s clean -fdq" % (wt, wt))
     sh("git -C /repo worktree remove --force %s" % wt)
     shutil.rmtree(gm, ignore_errors=True)
